@@ -161,7 +161,9 @@ CHECKS["C18"] = dict(
          "cells (server cert x ServerName x client cert x client CA x transport x peer version, plus plaintext peers) against the real code with "
          "certificates minted at run time. D11 (no name check by the DTLS exporter for an empty or IP ServerName) was repaired in /repo "
          "(90a2eb6): dtls_name_check_restored proves the 56 former cells refused, d11_without_hook / d11_witness_without_hook show the old "
-         "failure returns if the hook is removed, dtls_valid_names_still_accepted that valid collectors are still accepted.",
+         "failure returns if the hook is removed, dtls_valid_names_still_accepted that valid collectors are still accepted. `tls resume` ops run "
+         "two exporters with different trust settings against ONE collector in one process (session resumption must not let the second skip its "
+         "own authentication): resume_independent, resume_model_satisfies_spec, resumed_session_fails_spec.",
     design="4 (C18), 5 (D11 fixed)",
     note="crypto/tls, crypto/x509 and pion/dtls are trusted to enforce the configuration they are given; negotiated versions are observed only at raw peers.")
 
